@@ -2,6 +2,7 @@
 // Minimal stand-in for pybind11: just enough surface for pybes3's raw_io / root_io sources.
 #include <cstdint>
 #include <cstddef>
+#include <cstring>
 #include <map>
 #include <memory>
 #include <string>
@@ -23,20 +24,57 @@ struct capsule { template <class F> capsule(void* p, F f) { /* keep alive: leak 
 template <class T> struct dtype_name;
 #define DT(T, N) template <> struct dtype_name<T> { static const char* get() { return N; } };
 DT(uint8_t,"u1") DT(uint16_t,"u2") DT(uint32_t,"u4") DT(uint64_t,"u8") DT(int8_t,"i1") DT(int16_t,"i2") DT(int32_t,"i4") DT(int64_t,"i8") DT(float,"f4") DT(double,"f8") DT(bool,"b1")
-// flags as in pybind11 (py::array::c_style etc.); the stand-in holds contiguous data only, so every flag combination behaves alike
-struct array { enum { c_style = 1, f_style = 2, forcecast = 16 }; };
-template <class T, int Flags = array::forcecast> struct array_t : object {
-  array_t() {}
-  template <int G> array_t(const array_t<T, G>& o) : object(o), own(o.own), n_(o.n_) {}   // pybind11: converting constructor from object
-  array_t(size_t n, const T* data) { set(n, data); }
-  array_t(size_t n, const T* data, capsule) { set(n, data); }
-  void set(size_t n, const T* data) { arr_impl a; a.dtype = dtype_name<T>::get(); a.itemsize = sizeof(T); a.n = n;
-    a.bytes.assign((const uint8_t*)data, (const uint8_t*)data + n * sizeof(T)); p->v = std::move(a); }
-  // exact-size heap copy so that ASan sees the true buffer bounds
-  static array_t from_vector(const std::vector<T>& v) { array_t r; r.own = std::shared_ptr<T[]>(new T[v.size() ? v.size() : 1]); for (size_t i = 0; i < v.size(); i++) r.own[i] = v[i]; r.n_ = v.size(); return r; }
-  buffer_info request() const { return buffer_info{ (void*)own.get(), n_ }; }
+// py::array: a 1-D view (owner, first item, item count, item size, stride in bytes, dtype tag) as NumPy hands it over.  Ownership is by
+// reference count as in Python: a converted copy lives exactly as long as the C++ object that holds it (ASan then sees reads after that).
+struct array : object {
+  enum { c_style = 1, f_style = 2, forcecast = 16 };
+  std::shared_ptr<void> owner; char* data = nullptr; size_t n_ = 0; size_t isz = 0; ptrdiff_t stride_b = 0; std::string dt;
   size_t size() const { return n_; }
-  std::shared_ptr<T[]> own; size_t n_ = 0;
+  ptrdiff_t itemsize() const { return (ptrdiff_t)isz; }
+  ptrdiff_t ndim() const { return 1; }
+  ptrdiff_t strides(size_t) const { return stride_b; }
+  ptrdiff_t shape(size_t) const { return (ptrdiff_t)n_; }
+  ptrdiff_t nbytes() const { return (ptrdiff_t)(n_ * isz); }
+  bool c_contiguous() const { return n_ <= 1 || stride_b == (ptrdiff_t)isz; }
+  // a view over caller-owned items: element i at first + i * stride_bytes
+  static array view(std::shared_ptr<void> owner, void* first, size_t n, size_t isz, ptrdiff_t stride_bytes, const std::string& dt) {
+    array a; a.owner = std::move(owner); a.data = (char*)first; a.n_ = n; a.isz = isz; a.stride_b = stride_bytes; a.dt = dt; return a; }
+  // value of item i as NumPy's casting would see it
+  long double item(size_t i) const {
+    const char* q = data + (ptrdiff_t)i * stride_b;
+    auto ld = [&](auto t) { decltype(t) x; std::memcpy(&x, q, sizeof x); return (long double)x; };
+    if (dt == "u4") return ld(uint32_t()); if (dt == "i4") return ld(int32_t()); if (dt == "u8") return ld(uint64_t());
+    if (dt == "i8") return ld(int64_t()); if (dt == "u2") return ld(uint16_t()); if (dt == "u1") return ld(uint8_t());
+    if (dt == "f8") return ld(double()); if (dt == "f4") return ld(float());
+    if (dt == ">u4") { uint32_t x; std::memcpy(&x, q, 4); return (long double)__builtin_bswap32(x); }
+    throw std::invalid_argument("shim: dtype " + dt);
+  }
+};
+template <class T, int Flags = array::forcecast> struct array_t : array {
+  array_t() { dt = dtype_name<T>::get(); isz = sizeof(T); stride_b = sizeof(T); }
+  // pybind11's converting constructor (== PyArray_FromAny(o, dtype T, ENSUREARRAY | Flags)): the SAME array (one more reference) when it already
+  // is native T and meets the layout the flags ask for; otherwise a NEW array whose only owner is the constructed object
+  array_t(const array& o) { convert(o); }
+  template <int G> array_t(const array_t<T, G>& o) { convert(o); }
+  array_t(size_t n, const T* src) { set(n, src); }
+  array_t(size_t n, const T* src, capsule) { set(n, src); }
+  void convert(const array& o) {
+    if (o.dt == dtype_name<T>::get() && (!(Flags & c_style) || o.c_contiguous())) { static_cast<array&>(*this) = o; return; }
+    std::shared_ptr<T[]> fresh(new T[o.n_ ? o.n_ : 1]);
+    for (size_t i = 0; i < o.n_; i++) {
+      if (o.dt == "i4" && sizeof(T) == 4) { int32_t x; std::memcpy(&x, o.data + (ptrdiff_t)i * o.stride_b, 4); fresh[i] = (T)x; }   // same-width: bits kept
+      else fresh[i] = (T)o.item(i);
+    }
+    owner = fresh; data = (char*)fresh.get(); n_ = o.n_; isz = sizeof(T); stride_b = sizeof(T); dt = dtype_name<T>::get();
+  }
+  void set(size_t n, const T* src) { arr_impl a; a.dtype = dtype_name<T>::get(); a.itemsize = sizeof(T); a.n = n;
+    a.bytes.assign((const uint8_t*)src, (const uint8_t*)src + n * sizeof(T)); p->v = std::move(a); }
+  // exact-size heap copy so that ASan sees the true buffer bounds
+  static array_t from_vector(const std::vector<T>& v) { std::shared_ptr<T[]> b(new T[v.size() ? v.size() : 1]); for (size_t i = 0; i < v.size(); i++) b[i] = v[i];
+    return adopt(b, b.get(), v.size()); }
+  static array_t adopt(std::shared_ptr<void> owner, T* first, size_t n) { array_t r; r.owner = std::move(owner); r.data = (char*)first; r.n_ = n; return r; }
+  buffer_info request() const { return buffer_info{ (void*)data, n_ }; }
+  const T* data_ptr() const { return (const T*)data; }
 };
 struct item_accessor { obj_ptr d; std::string k;
   template <class O> item_accessor& operator=(const O& o) { auto& m = std::get<2>(d->v); if (!m.count(k)) d->key_order.push_back(k); m[k] = o.p; return *this; } };
